@@ -396,7 +396,7 @@ def run(tier, seed):
     temp_units = [U(n) for n in ("K", "R", "degC", "degF", "delta_degC", "delta_degF")]
     dimless_units = [U("dimensionless"), U("percent"), U("ppm")] if usable("ppm") else [U("dimensionless"), U("percent")]
 
-    n_verdict = 2600 if tier == "quick" else 90000
+    n_verdict = 5000 if tier == "quick" else 100000
     shape_modes = ["same"] * 6 + ["scalar-both"] * 3 + ["scalar-desired", "scalar-actual", "mismatch"]
 
     # ------------------------------------------------------------------ allclose_units
@@ -541,7 +541,7 @@ def run(tier, seed):
                              {"python": snip(setup + f"a2 = {a2.expr()}\nd2 = {d2.expr()}\nassert bool(allclose_units(a, d, rtol=r, atol=t)) == bool(allclose_units(a2, d2, rtol=r, atol=t))\n")})
 
     # ------------------------------------------------------------------ numpy handlers
-    n_np = 1200 if tier == "quick" else 40000
+    n_np = 2000 if tier == "quick" else 40000
     for it in range(n_np):
         fk = rng.choice(multi) if rng.random() < 0.85 else rng.choice(allk)
         us = fam_units[fk]
@@ -634,7 +634,7 @@ def run(tier, seed):
                              {"python": snip(setup + f"t = {tq.expr()}\nv = np.allclose(a, b, rtol=r, atol=t)\nassert bool(v) == {w3}, v\n")})
 
     # ------------------------------------------------------------------ array_equal / array_equiv / assert_array_equal_units
-    n_eq = 900 if tier == "quick" else 30000
+    n_eq = 1500 if tier == "quick" else 30000
     for it in range(n_eq):
         fk = rng.choice(multi) if rng.random() < 0.8 else rng.choice(allk)
         us = fam_units[fk]
